@@ -273,6 +273,7 @@ class Path(object):
         self.outcome = st.outcome or ('fall',)
         self.env = st.frames[0]
         self.heap = st.heap
+        self.notes = st.notes
 
     # outcome helpers ------------------------------------------------------
     @property
@@ -590,8 +591,8 @@ class PathSum(object):
             for i, e in enumerate(t.elts):
                 if isinstance(e, ast.Starred):
                     raise self.err('starred target', node, fi)
-                item = items[i] if items is not None else op(
-                    'index', v, const(i))
+                item = items[i] if items is not None else self.index(
+                    v, const(i))
                 nx = []
                 for s in ss:
                     nx.extend(self.assign(e, item, s, fi, node))
@@ -751,6 +752,31 @@ class PathSum(object):
                 if c[1] == 'is' and p and struct(c[2][0]) == struct(x) and \
                         is_const(c[2][1]) and c[2][1][1] is None:
                     return False
+        if a[1] == 'is' and len(a[2]) == 2 and is_const(a[2][1]):
+            # x not in (c1, c2) on the path  =>  x is not c1
+            x, c = a[2]
+            sx = struct(x)
+            for k, p, _ in st.conds:
+                if k[1] == 'in' and not p and struct(k[2][0]) == sx and \
+                        k[2][1][0] in ('tuple', 'list', 'set') and any(
+                            i == c for i in k[2][1][1]):
+                    return False
+        if a[1] == 'in' and len(a[2]) == 2 and a[2][1][0] in (
+                'tuple', 'list', 'set') and all(
+                    is_const(i) and (i[1] is None or isinstance(i[1], bool))
+                    for i in a[2][1][1]):
+            # membership in a tuple of singletons, decided by identity tests
+            x, y = a[2]
+            sx = struct(x)
+            known = {}
+            for k, p, _ in st.conds:
+                if k[1] == 'is' and struct(k[2][0]) == sx and \
+                        is_const(k[2][1]):
+                    known[k[2][1]] = p
+            if any(known.get(i) is True for i in y[1]):
+                return True
+            if all(known.get(i) is False for i in y[1]):
+                return False
         if a[1] == 'in' and len(a[2]) == 2:
             x, y = a[2]
             if is_const(x) and y[0] in ('tuple', 'list', 'set') and all(
@@ -1260,6 +1286,14 @@ class PathSum(object):
                 return const(b[1][k[1]])
             except Exception:
                 pass
+        if b[0] == 'op' and b[1] == 'index' and is_const(k) and isinstance(
+                k[1], int) and k[1] >= 0:
+            sl = b[2][1]
+            if sl[0] == 'op' and sl[1] == 'slice' and is_const(sl[2][0]) \
+                    and isinstance(sl[2][0][1], int) and sl[2][0][1] >= 0 \
+                    and sl[2][1] == NONE and sl[2][2] == NONE:
+                # x[a:][k] is x[a + k]
+                return self.index(b[2][0], const(sl[2][0][1] + k[1]))
         if b[0] in ('tuple', 'list') and k[0] == 'op' and k[1] == 'slice' \
                 and all(is_const(x) for x in k[2]):
             try:
@@ -1985,49 +2019,85 @@ class PathSum(object):
             for x in ast.walk(n.target):
                 if isinstance(x, ast.Name):
                     written.add(x.id)
-        body = s.fork()
-        body.events = []
-        body.conds = list(s.conds)
         base_nconds = len(s.conds)
-        body.loops.append(n)
-        # inside the loop the written names have unknown (loop-carried)
-        # values, except on entry... one symbolic iteration: havoc first
-        for w in sorted(written):
-            if w in body.env:
-                body.env[w] = ('phi', w, next(self.uid))
-        for k in list(body.heap):
-            if k[1] in wattrs:
-                del body.heap[k]
         ctx = it if is_for else sym('<while>')
-        starts = [body]
-        if is_for:
-            el = ('elem', it, next(self.uid))
-            starts = self.assign(n.target, el, body, fi, n)
-        else:
-            nx = []
-            for b in starts:
-                for b2, t in self.branch(n.test, b, fi):
-                    if b2.outcome is not None:
-                        nx.append(b2)
-                    elif t:
-                        nx.append(b2)
-                    else:
-                        b2.outcome = ('break', 'cond')
-                        nx.append(b2)
-            starts = nx
-        res = self.block(n.body, starts, fi)
+
+        def iteration(keep):
+            """one symbolic iteration; names in `keep` start with their
+            value before the loop instead of an unknown loop-carried one"""
+            body = s.fork()
+            body.events = []
+            body.conds = list(s.conds)
+            body.loops.append(n)
+            phis = {}
+            for w in sorted(written):
+                if w in body.env and w not in keep:
+                    phis[w] = body.env[w] = ('phi', w, next(self.uid))
+            for k in list(body.heap):
+                if k[1] in wattrs:
+                    del body.heap[k]
+            starts = [body]
+            if is_for:
+                el = ('elem', it, next(self.uid))
+                starts = self.assign(n.target, el, body, fi, n)
+            else:
+                nx = []
+                for b in starts:
+                    for b2, t in self.branch(n.test, b, fi):
+                        if b2.outcome is not None:
+                            nx.append(b2)
+                        elif t:
+                            nx.append(b2)
+                        else:
+                            b2.outcome = ('break', 'cond')
+                            nx.append(b2)
+                starts = nx
+            return self.block(n.body, starts, fi), phis
+        # pass 1: every written name loop-carried.  A name that every
+        # iteration which goes on to the next one leaves as it found it
+        # (a flag set just before `break`) is not loop-carried at all:
+        # pass 2 lets it keep its value from before the loop.
+        res, phis = iteration(set())
+        keep = set()
+        targets = set(x.id for x in ast.walk(n.target)
+                      if isinstance(x, ast.Name)) if is_for else set()
+        for w, ph in phis.items():
+            if w in targets:
+                continue
+            goes_on = [b for b in res if b.outcome is None or
+                       b.outcome[0] == 'continue' or
+                       (b.outcome[0] == 'break' and len(b.outcome) == 2)]
+            if goes_on and all(b.frames[-1].get(w) == ph for b in goes_on):
+                keep.add(w)
+        if keep:
+            res2, phis2 = iteration(keep)
+            goes_on = [b for b in res2 if b.outcome is None or
+                       b.outcome[0] == 'continue' or
+                       (b.outcome[0] == 'break' and len(b.outcome) == 2)]
+            if all(b.frames[-1].get(w) == s.env.get(w) for b in goes_on
+                   for w in keep):
+                res, phis = res2, phis2
+            else:
+                keep = set()
         paths = []
         exits = []
+        breaks = []
         for b in res:
             b.loops.pop() if b.loops and b.loops[-1] is n else None
             p = Path(b)
             p.conds = b.conds[base_nconds:]
+            p.env = b.frames[-1]
             paths.append(p)
             if b.outcome is not None and b.outcome[0] in ('return', 'raise'):
                 exits.append(b)
-        s.events.append(Ev('loop', n, fi, s, ctx=ctx, paths=paths))
+            elif b.outcome is not None and b.outcome[0] == 'break' and \
+                    len(b.outcome) == 1:
+                breaks.append(b)
+        loop_ev = Ev('loop', n, fi, s, ctx=ctx, paths=paths)
+        s.events.append(loop_ev)
         for w in sorted(written):
-            s.env[w] = ('phi', w, next(self.uid))
+            if w not in keep:
+                s.env[w] = ('phi', w, next(self.uid))
         for k in list(s.heap):
             if k[1] in wattrs:
                 del s.heap[k]
@@ -2035,15 +2105,27 @@ class PathSum(object):
         # early exits: the function leaves from inside the loop
         for b in exits:
             e = s.fork()
-            e.events = list(s.events[:-1]) + [
-                Ev('loop', n, fi, s, ctx=ctx, paths=paths)] + [
-                    x for x in b.events]
+            e.events = list(s.events) + [x for x in b.events]
             e.conds = list(b.conds)
             e.outcome = b.outcome
             e.heap = b.heap
             e.frames = b.frames
             e.notes = b.notes
             out.append(e)
+        # leaving by `break`: the variables hold what that iteration left
+        for b in breaks:
+            e = s.fork()
+            e.conds = list(b.conds)
+            for w in sorted(written):
+                if w in b.env:
+                    e.env[w] = b.env[w]
+            for k, v in b.heap.items():
+                if k[1] in wattrs:
+                    e.heap[k] = v
+            e.notes = list(s.notes) + [('left-by-break', n, Path(b))]
+            out.append(e)
+        # exhaustion (or a false while-condition): the else clause runs
+        s.notes.append(('exhausted', n, None))
         if n.orelse:
             out.extend(self.block(n.orelse, [s], fi))
         else:
